@@ -72,6 +72,11 @@ def run_make(d, setting, fault, plugin_fail=None):
         os.close(r)
         outcome = "returned"
         try:
+            # tqdm guards its instance registry with a multiprocessing lock shared by every fork of this process tree: a child that
+            # dies (injected death) while one of its threads holds it would block all others for ever.  Process-local lock instead.
+            import threading
+            import tqdm
+            tqdm.tqdm.set_lock(threading.RLock())
             fsfault.install()
             fsfault.STATE.reset(d, fault, md_first=setting.get("md_first", True))
             if setting.get("worker_timing") == "late":
